@@ -384,7 +384,8 @@ func init() {
 	register(&vf.Check{
 		ID:        "C06",
 		Technique: "differential runtime monitor: a real Stream on a scripted transport (hook VerifAttach) reads wsref-generated fragmented/interleaved/segmented streams through all four read APIs; every delivery compared with the generated message list",
-		Rule: "cases = 1-12 messages (text/binary, sizes {0,1,125,126,127,500,4090-4099,65535,65536,max,random<=max}) x random fragmentation (1-6 fragments, empty ones included) x ping/pong (0-125 bytes) between fragments x segmentation (EVERY cut offset for streams <= 400 bytes, else 1-3 random cuts plus one inside a header; coalesced; cut at every frame boundary; byte-at-a-time) x {NextFrame, AsyncNextFrame, NextMessage, AsyncNextMessage} x inline/deferred transport completions; SetMaxMessageSize raised at random points while an asynchronous read is parked; " +
+		Rule: "a third of the cases read with ValidateUTF8(true) and carry text of 1-4 byte characters that the fragmentation splits anywhere; " +
+			"cases = 1-12 messages (text/binary, sizes {0,1,125,126,127,500,4090-4099,65535,65536,max,random<=max}) x random fragmentation (1-6 fragments, empty ones included) x ping/pong (0-125 bytes) between fragments x segmentation (EVERY cut offset for streams <= 400 bytes, else 1-3 random cuts plus one inside a header; coalesced; cut at every frame boundary; byte-at-a-time) x {NextFrame, AsyncNextFrame, NextMessage, AsyncNextMessage} x inline/deferred transport completions; SetMaxMessageSize raised at random points while an asynchronous read is parked; " +
 			"non-trivial = a control frame between fragments or a cut inside a frame header; distinct = (frame length classes, fragments, controls between fragments, segmentation class, max)",
 		Assumptions: []string{
 			"text payloads are ASCII (UTF-8 validation is optional and off by default)",
